@@ -111,6 +111,7 @@ fn run_driver(report: &mut Report, known: &KnownFindings, tier: Tier, driver: &s
         let (property, bare): (&str, String) = if signature.len() > 4 && signature.starts_with('C') && signature.as_bytes()[3] == b':' && signature[1..3].chars().all(|c| c.is_ascii_digit()) { (&signature[..3], signature[4..].to_string()) } else { ("C13", signature.clone()) };
         let v = Violation::new(property, format!("{}: {}", driver, bare), detail.clone());
         if let Some(k) = known.matches(&v) { report.known_hit.insert((v.property.clone(), format!("{} [{}]", k.what_fails, k.signature))); continue; }
+        if report.violations.iter().any(|(x, _)| x.property == v.property && x.signature == v.signature) { continue; }
         // the same plan must fail the same way again before it is believed
         // a violation is believed only if the same plan fails the same way again (up to three more executions);
         // an anomaly that never reproduces is counted in the evidence and reported on stderr, not raised as an alarm
